@@ -14,7 +14,7 @@ from koala.graph_utils import make_dual, vertices_to_polygon, remove_trailing_ed
 
 DRIVERS = ("c13",)
 MODEL_TARGETS = ["Model/Lattice.vo", "Model/Dual.vo", "Model/Truncate.vo"]
-TARGETS = ["Proofs/DualFacts.vo"]
+TARGETS = ["Proofs/DualFacts.vo", "Proofs/TruncateFacts.vo"]
 LEVEL = "proof"
 TRUST = [
     "hand-written Gallina models coq/Model/Dual.v (make_dual over Q) and coq/Model/Truncate.v (vertices_to_polygon, statement by statement, in integer units of 1/(3*scale)): "
